@@ -13,7 +13,7 @@ from . import rules_type as ty
 PROPERTIES = {
     'C08': {
         'rules': [safe.rule_inv_arith, safe.rule_inv_panic, safe.rule_inv_unsafe, safe.rule_ptr_guarded_call, safe.rule_auth_node_free, safe.rule_deque_shape,
-                  stale.rule_stale_removal, stale.rule_admit_live, must.rule_wo_node, must.rule_unlink_both, fx.rule_sketch_structure, adm.rule_cmp_evict, flow.rule_flow_sync, ty.rule_type_witnesses],
+                  stale.rule_stale_removal, stale.rule_admit_live, must.rule_wo_node, must.rule_unlink_both, fx.rule_sketch_structure, adm.rule_cmp_evict, flow.rule_flow_sync, ty.rule_type_witnesses, adm.rule_must_recency],
         'explanation': 'Discipline, not absence of every bad state: complete inventories of arithmetic asserts, panic-capable calls and unsafe code, each '
                        'discharged automatically or by one reasoned table line; unsafe impl bounds; every unsafe list operation is membership-'
                        'guarded; nodes are freed only by their owner roles, never popped in the concurrent cache; maintenance removes by identity '
@@ -41,7 +41,7 @@ PROPERTIES = {
         'does_not_decide': 'that Deque really implements the order (its pointer algebra); order among skipped / stale nodes in sync',
     },
     'C04': {
-        'rules': [adm.rule_admission_outcomes, adm.rule_cmp_evict, conc.rule_const_logsizes, conc.rule_loop_retry, flow.rule_flow_unsync, flow.rule_flow_sync, stale.rule_must_drain],
+        'rules': [adm.rule_admission_outcomes, adm.rule_cmp_evict, cfg.rule_store_capacity, conc.rule_const_logsizes, conc.rule_loop_retry, flow.rule_flow_unsync, flow.rule_flow_sync, stale.rule_must_drain],
         'explanation': 'Structural half of the bound: a candidate that does not fit is admitted only with its victims removed or is itself '
                        'removed; oversize candidates are undone; over-capacity is evicted at every unsync operation and every maintenance '
                        'run with the exact exit test; counters are adjusted on every path (FLOW); the queue of un-applied writes is bounded '
@@ -61,7 +61,7 @@ PROPERTIES = {
         'does_not_decide': 'behavioural equivalence of configurations as a whole',
     },
     'C11': {
-        'rules': [must.rule_unlink_both, stale.rule_admit_live, stale.rule_stale_removal, stale.rule_must_drain, must.rule_must_invalidate, must.rule_must_expire],
+        'rules': [must.rule_unlink_both, safe.rule_auth_node_free, stale.rule_admit_live, stale.rule_stale_removal, stale.rule_must_drain, must.rule_must_invalidate, must.rule_must_expire],
         'explanation': 'Exactly-once is Rust ownership everywhere except the raw-pointer list, so the check is about that boundary: every '
                        'removal from the map unlinks and frees both deque nodes of the entry, maintenance never creates a node for an entry '
                        'that already left the map, and never removes by key alone.',
@@ -69,7 +69,7 @@ PROPERTIES = {
         'does_not_decide': 'live-object counts at quiescent points, release timing relative to the clock',
     },
     'C10': {
-        'rules': [flow.rule_flow_unsync, flow.rule_flow_admit_sums_unsync, flow.rule_flow_sync, stale.rule_admit_live, stale.rule_stale_removal],
+        'rules': [flow.rule_flow_unsync, flow.rule_flow_admit_sums_unsync, flow.rule_flow_sync, stale.rule_admit_live, stale.rule_stale_removal, cfg.rule_store_weigher],
         'explanation': 'Per-path traces of every function that adds / removes / replaces a map entry: the final value written to each '
                        'counter is decomposed into a signed sum and must contain the removed entry\'s stored weight with sign - (and 1 with -), '
                        'the admitted candidate\'s weight with + (and 1), -old +new for updates, 0 after clear; accumulators are checked '
@@ -87,14 +87,14 @@ PROPERTIES = {
         'does_not_decide': 'HashMap/DashMap lookup correctness; that the latest insert wins under concurrency (C02)',
     },
     'C05': {
-        'rules': [live.rule_guard_live_ttl, must.rule_update_resets, must.rule_wo_node, cfg.rule_flow_config_names, cfg.rule_build_validate, stale.rule_auth_ts_writers, must.rule_impl_accessors],
+        'rules': [live.rule_guard_live_ttl, cfg.rule_store_ttl, must.rule_update_resets_ttl, must.rule_wo_node, cfg.rule_flow_config_names, cfg.rule_build_validate, stale.rule_auth_ts_writers, must.rule_impl_accessors],
         'explanation': 'Every hit path of the 6 lookups establishes last_modified + time_to_live <= now == false (inclusive boundary) '
                        'on the returned entry with `now` read from the clock in the same call.',
         'decides': 'the inclusive ttl boundary test is applied by every lookup to the returned entry',
         'does_not_decide': 'clock monotonicity; DashMap guard atomicity between an update and a concurrent read',
     },
     'C06': {
-        'rules': [live.rule_guard_live_tti, fx.rule_pure_observers_ts, must.rule_update_resets, cfg.rule_flow_config_names, stale.rule_auth_ts_writers, adm.rule_must_recency, must.rule_impl_accessors],
+        'rules': [live.rule_guard_live_tti, cfg.rule_store_tti, fx.rule_pure_observers_ts, must.rule_update_resets_tti, cfg.rule_flow_config_names, stale.rule_auth_ts_writers, adm.rule_must_recency, must.rule_impl_accessors],
         'explanation': 'Every hit path of the 6 lookups establishes last_accessed + time_to_idle <= now == false (inclusive) on the '
                        'returned entry; contains_key / iteration have no write effect on any timestamp store.',
         'decides': 'the inclusive tti boundary test is applied by every lookup; observers cannot extend the idle deadline',
@@ -115,7 +115,7 @@ PROPERTIES = {
         'does_not_decide': "DashMap's iteration guarantees under concurrent writers",
     },
     'C03': {
-        'rules': [live.rule_miss_reasons, flow.rule_flow_unsync, flow.rule_flow_admit_sums_unsync, flow.rule_flow_sync,
+        'rules': [live.rule_miss_reasons, adm.rule_admission_outcomes, must.rule_must_insert, flow.rule_flow_unsync, flow.rule_flow_admit_sums_unsync, flow.rule_flow_sync,
                   stale.rule_stale_ts, stale.rule_stale_removal, stale.rule_admit_live, adm.rule_must_recency, adm.rule_cmp_evict],
         'explanation': 'Every miss path of the 6 lookups is explained by key-absent / iterator-exhausted or a true expiry / watermark '
                        'comparison on that entry.',
